@@ -11,3 +11,9 @@ import (
 func VerifAddHook(st kvs.Storage, h redis.Hook) {
 	st.(*client).rdb.AddHook(h)
 }
+
+// VerifConnsInUse returns how many pooled connections of the client behind st are checked out right now.
+func VerifConnsInUse(st kvs.Storage) int {
+	ps := st.(*client).rdb.PoolStats()
+	return int(ps.TotalConns) - int(ps.IdleConns)
+}
